@@ -329,7 +329,7 @@ Proof. exact xfix_conservative. Qed.
 Print Assumptions C05_fix_conservative.
 
 (* ---------- non-vacuity of the full statements ---------- *)
-Definition cr (r : rres) : option certres := Some (mk_cr r 1 [(1%N, true); (2%N, false)]).
+Definition cr (r : rres) : option certres := Some (mk_cr r 1 [Some (1%N, true); Some (2%N, false)]).
 
 Example C05_full_example_revoked_leafmost :   (* two revoked: the leaf-most is named; hypotheses of C05_full_revoked hold *)
   let x := mk_xinput Enforce true 2 (Some 1700000000%Z) ["leaf"; "i1"; "i2"; "root"] false
@@ -389,9 +389,9 @@ Proof. reflexivity. Qed.
 
 Example C05_full_example_annotations :   (* same results, different annotations: same observation *)
   xmodel (mk_xinput Enforce true 1 (Some 1700000000%Z) ["leaf"; "root"] false
-            [Some (mk_cr RUnknown 3 [(1%N, true); (2%N, true)]); Some (mk_cr ROK 0 [])]) =
+            [Some (mk_cr RUnknown 3 [Some (1%N, true); None; Some (2%N, true)]); Some (mk_cr ROK 0 [None])]) =
   xmodel (mk_xinput Enforce true 1 (Some 1700000000%Z) ["leaf"; "root"] false
-            [Some (mk_cr RUnknown 1 []); Some (mk_cr ROK 2 [(2%N, false)])]).
+            [Some (mk_cr RUnknown 1 []); Some (mk_cr ROK 2 [Some (2%N, false)])]).
 Proof. reflexivity. Qed.
 
 Example C05_full_example_projection :
